@@ -83,6 +83,58 @@ PROBE = {'op': 'def', 'var': 't1', 'fn': 'f', 'args': [{'c': 1}, {'c': 1}],
                                                              'k': {'op': 'ret', 'arg': {'c': 0}}}}}}}}}}}}}
 CORPUS = [('D18-witness', D18), ('design-probe', PROBE)]
 
+
+def d21_witness(links=70):
+    """the D21 witness (Task.hash() died with RecursionError on long chains: bvalue() never opened, CompoundTask could not
+    be imported, `jug check` crashed; fixed in /repo 94cab01): a chain; v = bvalue(its end); a second chain;
+    c = comp(its end); a task on c; a third chain that nothing has hashed when `jug check` starts from the last task.
+    No barrier() anywhere: only Task.hash() stands between these calls and the recursion limit."""
+    n = [0]
+
+    def fresh(p):
+        n[0] += 1
+        return '%s%d' % (p, n[0])
+
+    def chain(out, start_c):
+        cur = fresh('t')
+        out.append({'op': 'def', 'var': cur, 'fn': 'f', 'args': [{'c': start_c}, {'c': 1}]})
+        for i in range(links):
+            nxt = fresh('t')
+            out.append({'op': 'def', 'var': nxt, 'fn': 'f', 'args': [{'t': cur}, {'c': i % lg.M}]})
+            cur = nxt
+        return cur
+    root = []
+    a = chain(root, 0)
+    v = fresh('v')
+    rest = [{'op': 'mark', 'n': 900001, 'kind': 'bv', 'ref': {'t': a}, 'vvar': v}]
+    root.append({'op': 'bvalue', 'var': v, 'arg': {'t': a}, 'plain_value': False, 'branches': {'*': rest}})
+    b = chain(rest, 1)
+    inner = fresh('t')
+    body = [{'op': 'mark', 'n': 900002, 'kind': 'plain'},
+            {'op': 'def', 'var': inner, 'fn': 'f', 'args': [{'t': b}, {'c': 2}]},
+            {'op': 'ret', 'arg': {'t': inner}}]
+    c = fresh('c')
+    rest.append({'op': 'compound', 'var': c, 'name': fresh('comp'), 'params': [b], 'body': body})
+    rest.append({'op': 'def', 'var': fresh('t'), 'fn': 'f', 'args': [{'t': c}, {'c': 0}]})
+    chain(rest, 2)
+    rest.append({'op': 'ret', 'arg': {'c': 0}})
+    return lg.unflatten(root)
+
+
+def d21_check_witness(links=70):
+    """the other face of D21: two chains and nothing else - no barrier(), no bvalue() stops the load, so `jug check` (which
+    asks the LAST task first) meets chains nothing has hashed, at every store state, the completed store included"""
+    out, n = [], 0
+    for c0 in (0, 1):
+        n += 1
+        out.append({'op': 'def', 'var': 't%d' % n, 'fn': 'f', 'args': [{'c': c0}, {'c': 2}]})
+        for i in range(links):
+            n += 1
+            out.append({'op': 'def', 'var': 't%d' % n, 'fn': 'g' if i % 7 == 3 else 'f',
+                        'args': [{'t': 't%d' % (n - 1)}, {'t': 't%d' % (n - 1)} if i % 7 == 3 else {'c': i % lg.M}]})
+    out.append({'op': 'ret', 'arg': {'c': 0}})
+    return lg.unflatten(out)
+
 PREAMBLE = lg.COQ_PREAMBLE + '''
 Definition iobs := (store * (list tid * list mark * bool * nat))%type.
 Definition chk_one (p : jprog) (so : iobs) : bool :=
@@ -286,12 +338,21 @@ class ProgramRun:
         lg.fill_store(store, items)
         state = [[h, v] for h, v in items]
         try:
-            r = lg.real_init(self.sc, store, slack=self.slack)
+            r = lg.real_init(self.sc, store, slack=self.slack, hash_now=False)
         except SystemExit:
             self.viol('the jugfile failed to load', store=state, backend=backend)
             ck.count('init: jugfile crashed')
             return
-        code = lg.real_check(r['store'], r['space'])
+        try:
+            code = lg.real_check(r['store'], r['space'], slack=self.slack)
+        except lg.HarnessError:
+            raise
+        except Exception as e:                     # the code under test raised: a finding, not a harness failure
+            self.viol('jug check raised an exception', store=state, backend=backend,
+                      exception='%s: %s' % (type(e).__name__, str(e)[:200]))
+            ck.count('check: raised')
+            return
+        lg.task_hashes(r)
         for what, n, d in marker_oracle(r['marks']):
             self.viol(what, store=state, backend=backend, marker=n, detail=d)
         loadable = [bool(t.can_load()) for t in r['objs']]
@@ -401,8 +462,16 @@ class ProgramRun:
                 self.viol('jug execute ended with a store different from the sequential evaluation',
                           expected=sorted(exp.items())[:60], observed=sorted(final.items())[:60], loads=loads,
                           keys=sorted(set(bad))[:40], in_scope_at_end=top[:60], **ctx)
-        r = lg.real_init(self.sc, store, slack=self.slack)
-        code2 = lg.real_check(r['store'], r['space'])
+        try:
+            r = lg.real_init(self.sc, store, slack=self.slack, hash_now=False)
+            code2 = lg.real_check(r['store'], r['space'], slack=self.slack)
+        except lg.HarnessError:
+            raise
+        except (Exception, SystemExit) as e:
+            self.viol('after jug execute finished, loading the jugfile or jug check failed',
+                      exception='%s: %s' % (type(e).__name__, str(e)[:200]), **ctx)
+            ck.count('execute: reload / check afterwards raised')
+            return
         if r['hasbarrier'] or code2 != 0:
             self.viol('after jug execute finished, a barrier is still closed or check is non-zero',
                       hasbarrier=r['hasbarrier'], check=code2, loads=loads, **ctx)
@@ -574,9 +643,7 @@ def run(ck):
     ]
     ck.assumptions = ['C14_reload_loop: the sequential evaluation succeeds (every task reference is in scope), gives one '
                       'value per identifier (checked by functionalb on every execute case), and the start store does not '
-                      'contradict it', 'C14_closed_barrier_*: Python scoping (wf [] p)',
-                      'long programs: bvalue() and compound arguments are at most %d links away from a task whose hash is '
-                      'cached (jug itself cannot hash deeper ones: notes/strengthen_loader.txt F1)' % lg.Deep.NEAR]
+                      'contradict it', 'C14_closed_barrier_*: Python scoping (wf [] p)']
     rng = ck.rng
     nprog = ck.n(200, 1800)
     ndeep = ck.n(10, 50)
@@ -589,7 +656,7 @@ def run(ck):
         os.environ['HOME'] = root
         sc = lg.Scratch(root)
         try:
-            progs = [(n, p, None) for n, p in CORPUS]
+            progs = [(n, p, None) for n, p in CORPUS] + [('D21-check-witness', d21_check_witness(), SLACK), ('D21-witness', d21_witness(), SLACK)]
             for i in range(nprog):
                 style = i % 4
                 if style == 0:
